@@ -766,21 +766,73 @@ func c01WktFallback(c *Ctx, rule string) {
 			}
 			return true
 		})
-		ok := getFile != nil && wktGet != nil && notExistTest != nil && g.Dominates(getFile, wktGet) && g.Dominates(notExistTest, wktGet)
-		if ok {
-			// the body of `if !errors.Is(err, ErrNotExist)` returns: the WKT lookup is unreachable from it
-			if len(notExistIf.Body.List) == 0 || g.Reachable(notExistIf.Body.List[0], wktGet) {
-				ok = false
+		_ = notExistIf
+		_ = notExistTest
+		_ = wktGet
+		_ = getFile
+		// decided on SSA, looking through a helper the fallback may have been moved into: the instruction of Open that
+		// touches datawkt (directly, or by calling a package function that does) lies on the failing edge of the
+		// workspace lookup's error test and on the edge where errors.Is(err, fs.ErrNotExist) holds
+		ok := false
+		if sop := p.SSAFunc(op.Obj); sop != nil {
+			touchesWKT := func(f *ssa.Function) bool {
+				for _, g := range reachSSA(f, 1) {
+					for _, b := range g.Blocks {
+						for _, ins := range b.Instrs {
+							for _, opnd := range ins.Operands(nil) {
+								if opnd == nil || *opnd == nil {
+									continue
+								}
+								if gl, isG := (*opnd).(*ssa.Global); isG && gl.Pkg != nil && strings.HasSuffix(gl.Pkg.Pkg.Path(), "gen/data/datawkt") {
+									return true
+								}
+							}
+						}
+					}
+				}
+				return false
 			}
-			// and the WKT lookup sits on the moduleErr != nil edge
-			onErr := false
-			for cur := p.Parent(wktGet); cur != nil && cur != op.Decl; cur = p.Parent(cur) {
-				if ifs, isIf := cur.(*ast.IfStmt); isIf && nonNilErrTested(info, ifs.Cond) != nil {
-					onErr = true
+			var sites []ssa.Instruction
+			for _, b := range sop.Blocks {
+				for _, ins := range b.Instrs {
+					for _, opnd := range ins.Operands(nil) {
+						if opnd != nil && *opnd != nil {
+							if gl, isG := (*opnd).(*ssa.Global); isG && gl.Pkg != nil && strings.HasSuffix(gl.Pkg.Pkg.Path(), "gen/data/datawkt") {
+								sites = append(sites, ins)
+							}
+						}
+					}
+					if cl, isCall := ins.(*ssa.Call); isCall {
+						if callee := cl.Call.StaticCallee(); callee != nil && callee.Pkg == sop.Pkg && touchesWKT(callee) {
+							sites = append(sites, ins)
+						}
+					}
 				}
 			}
-			if !onErr {
-				ok = false
+			ok = len(sites) > 0
+			for _, site := range sites {
+				onErr, pastGate := false, false
+				for _, ge := range guardingEdges(site.Block()) {
+					cv, pos := condPolarity(ge.If.Cond)
+					holds := ge.Branch == pos
+					if x, trueIsNonNil, isCmp := nilCompare(cv); isCmp && isErrorType(x.Type()) && holds == trueIsNonNil {
+						if dependsOnCall(x, func(cc *ssa.CallCommon) bool { return cc.IsInvoke() && cc.Method.Name() == "GetFile" }) {
+							onErr = true
+						}
+					}
+					if cl, isCall := cv.(*ssa.Call); isCall && holds {
+						if eo := staticCalleeObj(&cl.Call); eo != nil && eo.Pkg() != nil && eo.Pkg().Path() == "errors" && eo.Name() == "Is" && len(cl.Call.Args) == 2 {
+							if gl, isLoad := stripConv(cl.Call.Args[1]).(*ssa.UnOp); isLoad {
+								if g2, isG := gl.X.(*ssa.Global); isG && g2.Name() == "ErrNotExist" {
+									pastGate = true
+								}
+							}
+						}
+					}
+				}
+				if !onErr || !pastGate {
+					ok = false
+				}
 			}
 		}
 		c.Ob(rule, "parserAccessorHandler.Open/order", op.Decl.Pos(), ok, true, "datawkt is consulted only after GetFile failed, and only past the errors.Is(err, fs.ErrNotExist) gate: %v", ok)
